@@ -361,12 +361,14 @@ def dag_cubes(grid):
 
 def ns_pivot_ob(tier):
     q = tier == "quick"
-    grid = [(3, 3), (4, 4), (4, 5)] if q else [(3, 3), (4, 4), (4, 5), (5, 5)]
+    grid = [(3, 3), (4, 4), (4, 5)] if q else [(3, 3), (4, 4), (4, 5), (5, 4), (5, 5)]
     cubes = [dict(c, SYMDELTA=sd) for c in dag_cubes(grid) for sd in (0, 1) if sd == 0 or (c["N"], c["M"]) in ([(3, 3)] if q else [(3, 3), (4, 4)])]
+    if not q:
+        cubes = [c for i, c in enumerate(cubes) if (c["N"], c["M"]) != (5, 5) or i % 4 == 0]
     return dict(name="ns-pivot-lemma", pkg="internal/phase2", func="Harness_NS_Pivot", consts={}, cubes=cubes, enctimeout=300, qtimeout=120,
                 bounds="one network-simplex pivot from an ARBITRARY feasible tight spanning tree: all canonical connected DAGs with (N,M) in %s (parallel edges "
                        "included) as cubes; symbolic: the layering (0..2N per node) and the set of tree edges, assumed only to satisfy the invariant; for (N,M)=(3,3) [thorough: also (4,4)] additionally "
-                       "with symbolic minimum lengths Delta in 0..3 and weights in 0..2 per edge (as the NetworkSimplex positioner uses the same code)" % grid)
+                       "with symbolic minimum lengths Delta in 0..3 and weights in 0..2 per edge (as the NetworkSimplex positioner uses the same code)%s" % (grid, "" if q else "; every 4th cube of the (5,5) class"))
 
 
 def ns_whole_obs(tier, which):
@@ -398,7 +400,7 @@ def ns_tree_obs(tier):
 
 def ns_balance_ob(tier):
     q = tier == "quick"
-    grid = [(3, 3), (4, 4)] if q else [(3, 3), (4, 4), (4, 5), (5, 5)]
+    grid = [(3, 3), (4, 4)] if q else [(3, 3), (4, 4), (4, 5), (5, 4)]
     return dict(name="ns-balance-lemma", pkg="internal/phase2", func="Harness_NS_Balance", consts={}, cubes=dag_cubes(grid), enctimeout=300, qtimeout=120,
                 bounds="normalize + vbalance from an ARBITRARY feasible layering: all canonical connected DAGs with (N,M) in %s as cubes; symbolic: the layer of every "
                        "node in -3..2N, assumed feasible" % grid)
